@@ -64,6 +64,7 @@ def stage(unit, workdir, repo, verif):
     shutil.rmtree(workdir, ignore_errors=True)
     os.makedirs(workdir)
     crate_dir = None
+    repo_dir = None
     for op in unit["stage"]:
         kind = op[0]
         if kind == "crate":
@@ -75,14 +76,16 @@ def stage(unit, workdir, repo, verif):
                     if fn == "Cargo.toml":
                         p = os.path.join(root, fn)
                         t = open(p).read()
-                        t2 = t.replace('"/repo/', '"' + repo.rstrip("/") + "/").replace('"/verif/', '"' + verif.rstrip("/") + "/")
+                        t2 = t.replace('"/repo/', '"' + os.path.join(workdir, "repo") + "/").replace('"/verif/', '"' + verif.rstrip("/") + "/")
                         if t2 != t:
                             _write_keep_mtime(p, t2, p)
         elif kind == "repo":
             # full scratch copy of the workspace (3.6 MB without target/.git)
-            crate_dir = os.path.join(workdir, "repo")
+            repo_dir = os.path.join(workdir, "repo")
+            if crate_dir is None:
+                crate_dir = repo_dir
             r = subprocess.run(["rsync", "-a", "--exclude", "/target", "--exclude", ".git", "--exclude", "/fuzz",
-                                repo.rstrip("/") + "/", crate_dir + "/"], capture_output=True, text=True)
+                                repo.rstrip("/") + "/", repo_dir + "/"], capture_output=True, text=True)
             if r.returncode != 0:
                 raise StagingError("rsync failed: " + r.stderr[-500:])
         elif kind == "lock":
@@ -98,14 +101,14 @@ def stage(unit, workdir, repo, verif):
             text = apply_rewrites(text, op[3] if len(op) > 3 else [], op[1])
             _write_keep_mtime(os.path.join(crate_dir, op[2]), text, src)
         elif kind == "rewrite":
-            # rewrite a file inside the staged copy
-            p = os.path.join(crate_dir, op[1])
+            # rewrite a file inside the staged copy of the repository
+            p = os.path.join(workdir, "repo", op[1])
             if not os.path.exists(p):
                 raise StagingError("file under test is gone: " + op[1])
             text = apply_rewrites(open(p).read(), op[2], op[1])
             _write_keep_mtime(p, text, p)
         elif kind == "append":
-            p = os.path.join(crate_dir, op[1])
+            p = os.path.join(workdir, "repo", op[1])
             if not os.path.exists(p):
                 raise StagingError("file under test is gone: " + op[1])
             inj = open(os.path.join(verif, op[2])).read()
@@ -126,17 +129,6 @@ def stage(unit, workdir, repo, verif):
     if not os.path.exists(cfgp):
         with open(cfgp, "w") as f:
             f.write("[net]\noffline = true\n")
-    # content hash -> touch when the staged sources differ from the last build with this cache
-    h = hashlib.sha256()
-    files = []
-    for root, dirs, fs in os.walk(crate_dir):
-        dirs[:] = [d for d in dirs if d not in ("target", ".git")]
-        for fn in fs:
-            if fn.endswith((".rs", ".toml", ".lock")):
-                files.append(os.path.join(root, fn))
-    for p in sorted(files):
-        h.update(p.encode())
-        h.update(open(p, "rb").read())
     # functions encoded: file:line looked up in the current tree
     finfo = []
     for f in unit.get("functions", []):
@@ -145,5 +137,33 @@ def stage(unit, workdir, repo, verif):
         if ln is None:
             raise StagingError("function under test not found in current tree: %s in %s" % (name, rel))
         finfo.append("%s:%d %s" % (rel, ln, name))
-    unit["_hash"] = h.hexdigest()
     return crate_dir, finfo
+
+
+def touch_changed(workdir, cache_dir):
+    """cargo decides rebuilds by mtime; staging preserves mtimes so that an unchanged tree is not
+    rebuilt.  To be safe against content changes that keep an old mtime, every staged file whose
+    content differs from the previous run with this build cache gets a fresh mtime."""
+    import json
+    import time
+    man_path = os.path.join(cache_dir, "staged-files.json")
+    try:
+        old = json.load(open(man_path))
+    except Exception:
+        old = {}
+    new = {}
+    now = time.time()
+    for root, dirs, fs in os.walk(workdir):
+        dirs[:] = [d for d in dirs if d not in ("target", ".git")]
+        for fn in fs:
+            p = os.path.join(root, fn)
+            try:
+                dig = hashlib.sha256(open(p, "rb").read()).hexdigest()
+            except OSError:
+                continue
+            rel = os.path.relpath(p, workdir)
+            new[rel] = dig
+            if old and old.get(rel) != dig:
+                os.utime(p, (now, now))
+    os.makedirs(cache_dir, exist_ok=True)
+    json.dump(new, open(man_path, "w"))
